@@ -102,6 +102,13 @@ class Check:
                         "disallowed assumptions: %s" % bad if bad else "")
         return True, "", log
 
+    def diagnose(self, template_rel):
+        src = os.path.join(vlib.VERIF, "run", template_rel)
+        dst = os.path.join(self.work, os.path.basename(template_rel))
+        shutil.copy(src, dst)
+        ok, log, secs = vlib.coqc(dst, self.work, 600)
+        return log
+
     @staticmethod
     def _axiom_allowed(a):
         a = a.strip()
@@ -109,37 +116,32 @@ class Check:
 
     @staticmethod
     def _parse_assumptions(log):
-        """coqc prints, for each `Print Assumptions t.`, either 'Closed under the global context' or 'Axioms:' + list.
-        We label blocks by the preceding marker we print ourselves:  (*PA t*) via `Check`-free idiom is not available,
-        so property files use:  Print Assumptions t.  preceded by  Goal True. idtac "PA:t". Abort.  (see PA macro)."""
+        """Property files print a marker `PA:<theorem>` (Goal True. idtac "PA:t". Abort.) before each `Print Assumptions t.`;
+        coqc then prints either 'Closed under the global context' or 'Axioms:' followed by `name : type` entries."""
         thms = {}
         cur = None
-        lines = log.split("\n")
-        i = 0
-        while i < len(lines):
-            ln = lines[i]
-            m = re.match(r"PA:(\S+)", ln.strip())
+        inax = False
+        for ln in log.split("\n"):
+            st = ln.strip()
+            m = re.match(r"PA:(\S+)$", st)
             if m:
                 cur = m.group(1)
                 thms[cur] = None
-            elif cur is not None and thms[cur] is None:
-                if ln.startswith("Closed under the global context"):
-                    thms[cur] = []
-                    cur = None
-                elif ln.startswith("Axioms:"):
-                    ax = []
-                    i += 1
-                    while i < len(lines) and (lines[i].startswith(" ") or re.match(r"^[A-Za-z_][\w.']*\s*:", lines[i]) or lines[i].strip() == ""):
-                        mm = re.match(r"^([A-Za-z_][\w.']*)\s*:", lines[i])
-                        if mm:
-                            ax.append(mm.group(1))
-                        if re.match(r"PA:", lines[i].strip()):
-                            break
-                        i += 1
-                    thms[cur] = ax
-                    cur = None
-                    continue
-            i += 1
+                inax = False
+                continue
+            if cur is None:
+                continue
+            if st.startswith("Closed under the global context"):
+                thms[cur] = []
+                cur = None
+                inax = False
+            elif st.startswith("Axioms:"):
+                thms[cur] = []
+                inax = True
+            elif inax:
+                mm = re.match(r"^([A-Za-z_][\w.']*)\s*:", ln)
+                if mm:
+                    thms[cur].append(mm.group(1))
         return {k: (v if v is not None else ["<no Print Assumptions output>"]) for k, v in thms.items()}
 
     # ------------------------------------------------------------ correspondence
